@@ -199,23 +199,47 @@ func (c *Check) validatorAgreement(rule, msg, rec string) {
 			return nil
 		}
 		out := map[string]bool{}
-		// validators on the success path(s): all calls of Validate* functions over fields of the receiver
-		for _, pa := range c.P.PathsOf(f) {
-			if !pa.OK() {
-				continue
-			}
-			for _, ev := range pa.Events {
-				if ev.Kind != EvCall || !strings.HasPrefix(ev.CI.name, "types.Validate") {
+		// validators on the success path(s): all calls of Validate* functions over fields of the receiver,
+		// made directly or inside a shared helper of package types the fields are handed to
+		var walk func(g *Func, m map[string]*Term, depth int)
+		walk = func(g *Func, m map[string]*Term, depth int) {
+			for _, pa := range c.P.PathsOf(g) {
+				if !pa.OK() {
 					continue
 				}
-				for _, a := range ev.CI.args {
-					a = stripConv(a)
-					if strings.HasPrefix(a.Op, "."+typ+".") && len(a.A) == 1 && a.A[0].IsAt("Precv") {
-						out[ev.CI.name+"("+strings.TrimPrefix(a.Op, "."+typ+".")+")"] = true
+				for _, ev := range pa.Events {
+					if ev.Kind != EvCall {
+						continue
+					}
+					var args []*Term
+					for _, a := range ev.CI.args {
+						if m != nil {
+							a = a.Subst(m)
+						}
+						args = append(args, a)
+					}
+					if strings.HasPrefix(ev.CI.name, "types.Validate") {
+						for _, a := range args {
+							a = stripConv(a)
+							if strings.HasPrefix(a.Op, "."+typ+".") && len(a.A) == 1 && a.A[0].IsAt("Precv") {
+								out[ev.CI.name+"("+strings.TrimPrefix(a.Op, "."+typ+".")+")"] = true
+							}
+						}
+						continue
+					}
+					if h := ev.CI.fn; h != nil && depth > 0 && h != g && h.isHandWritten() && h.Body != nil && h.pkgName() == "types" {
+						if _, hasErr := h.hasErrorResult(); hasErr {
+							hm := map[string]*Term{}
+							for i, a := range args {
+								hm[fmt.Sprintf("P%d", i)] = a
+							}
+							walk(h, hm, depth-1)
+						}
 					}
 				}
 			}
 		}
+		walk(f, nil, 2)
 		return out
 	}
 	m := collect("types."+msg+".ValidateBasic", msg)
@@ -516,4 +540,40 @@ func ruleC17(c *Check) {
 		}
 	}
 	c.keyGrammar("C17.5", map[string]bool{"0x02": true, "0x03": true, "0x13": true, "0x14": true, "0x16": true, "0x18": true})
+	c.queryIndexMaintained("C17.6")
+}
+
+// queryIndexMaintained: the owner-filtered binding list is answered from the owner index (family 0x03), so it
+// agrees with the stored bindings only if every creation of a binding record writes its index entry too.
+func (c *Check) queryIndexMaintained(rule string) {
+	var en *Entry
+	for _, e := range c.entries(rule) {
+		if e.Msg == "MsgBindService" {
+			en = e
+		}
+	}
+	if en == nil {
+		c.undecided(rule, "MsgBindService", token.NoPos, "bind entry not found")
+		return
+	}
+	name, prov := en.Field("ServiceName"), en.Field("Provider")
+	var prim, idx *Eff
+	for _, e := range c.mutating(c.P.SummaryOf(en.Handler)) {
+		if e.Kind == "store" && e.Op == "Set" {
+			switch e.Family {
+			case "0x02":
+				prim = e
+			case "0x03":
+				idx = e
+			}
+		}
+	}
+	c.req(prim != nil && prim.Must && idx != nil && idx.Must, rule, "MsgBindService#index-with-record", en.Pos,
+		"every successful bind writes the binding record and its owner-index entry (the index the owner-filtered query scans)")
+	if idx != nil {
+		k := keyArgs(idx)
+		ok := len(k) == 3 && k[0].String() == en.SignerTerm() && k[1].String() == name && k[2].String() == prov
+		c.req(ok, rule, "MsgBindService#index-key", idx.Pos, "the index entry is keyed by (owner, service, provider) of the new binding: "+fmtTerms(k))
+	}
+	c.genesisBindingSetter(rule)
 }
